@@ -172,7 +172,7 @@ func c11case(c *wk.Ctx, idx int, r *rand.Rand, h c11history) {
 	}
 	_ = sawNewSaltAt
 	delays := map[string]int{}
-	for _, p := range []string{"salt.adopt", "salt.notify", "call.retry", "send.enter", "rpc.deliver.before", "recv.dispatch"} {
+	for _, p := range []string{"salt.adopt", "salt.notify", "call.retry", "send.enter", "rpc.deliver.before", "recv.dispatch", "wire.written"} {
 		if r.Intn(2) == 0 {
 			delays[p] = []int{100, 1000, 3000}[r.Intn(3)]
 		}
@@ -183,7 +183,8 @@ func c11case(c *wk.Ctx, idx int, r *rand.Rand, h c11history) {
 	case 1:
 		delays["call.sent"] = hookAlways + 5000
 	case 2:
-		delays["send.written"] = hookAlways + 5000
+		// ... inside the transport, before WriteMsg has even returned to the send path
+		delays["wire.written"] = hookAlways + 5000
 	case 3:
 		if r.Intn(2) == 0 {
 			delays["call.sent"] = 3000
